@@ -284,6 +284,9 @@ impl Scenario for X25519Hs {
 
 // ------------------------------------------------------------------ arithprog
 
+/// longest chain of additions / subtractions / negations without an intervening multiplication
+pub const MAX_CHAIN: u8 = 8;
+
 pub const A_FE_LOAD: u8 = 0; // h = dst reg, arg = special selector, seed
 pub const A_FE_ADD: u8 = 1; // h = dst, off = src1 | src2<<3
 pub const A_FE_SUB: u8 = 2;
@@ -357,40 +360,76 @@ impl Scenario for ArithProg {
             let s1 = rng.below(NREG as u64) as u8;
             let s2 = rng.below(NREG as u64) as u8;
             let srcs = s1 | (s2 << 3);
-            match rng.below(27) {
+            match rng.below(28) {
                 0 | 1 | 2 => {
                     let k = if rng.chance(1, 2) { A_FE_ADD } else { A_FE_SUB };
-                    // operand discipline: both inputs reduced
-                    if depth[s1 as usize] == 0 && depth[s2 as usize] == 0 {
+                    // chains of additions / subtractions / negations without an intervening multiplication are
+                    // public-API use like any other (nothing documents a limit); they are kept to MAX_CHAIN terms
+                    let d = depth[s1 as usize] + depth[s2 as usize] + 1;
+                    if d <= MAX_CHAIN {
                         t.ops.push(Op::new(dst, k).off(srcs));
-                        depth[dst as usize] = 1;
+                        depth[dst as usize] = d;
                     }
                 }
                 3 => {
-                    if depth[s1 as usize] == 0 {
+                    if depth[s1 as usize] + 1 <= MAX_CHAIN {
                         t.ops.push(Op::new(dst, A_FE_NEG).off(srcs));
-                        depth[dst as usize] = 1;
+                        depth[dst as usize] = depth[s1 as usize] + 1;
+                    }
+                }
+                26 => {
+                    // a longer sum: dst = r0 +- r1 +- r2 ... over reduced registers, then observed and compared
+                    if dst != s1 {
+                        let terms = rng.range(3, MAX_CHAIN as u64 - 1) as u8;
+                        let mut d = depth[s1 as usize];
+                        let mut cur = s1;
+                        for _ in 0..terms {
+                            let r = rng.below(NREG as u64) as u8;
+                            if d + depth[r as usize] + 1 > MAX_CHAIN {
+                                break;
+                            }
+                            let k = if rng.chance(1, 2) { A_FE_ADD } else { A_FE_SUB };
+                            // alternate which side the running sum is on
+                            let srcs2 = if rng.chance(1, 2) { cur | (r << 3) } else { r | (cur << 3) };
+                            t.ops.push(Op::new(dst, k).off(srcs2));
+                            d = d + depth[r as usize] + 1;
+                            cur = dst;
+                        }
+                        depth[dst as usize] = d;
+                        t.ops.push(Op::new(dst, A_FE_OBSERVE));
+                        t.ops.push(Op::new(0, A_FE_EQ).off(dst | (s2 << 3)));
                     }
                 }
                 4 | 5 | 6 | 7 => {
-                    t.ops.push(Op::new(dst, A_FE_MUL).off(srcs));
-                    depth[dst as usize] = 0;
+                    // multiplication takes operands with at most one pending addition (the bound of the 32-bit limb code)
+                    if depth[s1 as usize] <= 1 && depth[s2 as usize] <= 1 {
+                        t.ops.push(Op::new(dst, A_FE_MUL).off(srcs));
+                        depth[dst as usize] = 0;
+                    }
                 }
                 8 | 9 => {
-                    t.ops.push(Op::new(dst, A_FE_SQUARE).off(srcs));
-                    depth[dst as usize] = 0;
+                    if depth[s1 as usize] <= 1 {
+                        t.ops.push(Op::new(dst, A_FE_SQUARE).off(srcs));
+                        depth[dst as usize] = 0;
+                    }
                 }
                 10 => {
-                    t.ops.push(Op::new(dst, A_FE_SQUARE_N).off(srcs).len(rng.range(1, 6) as usize));
-                    depth[dst as usize] = 0;
+                    if depth[s1 as usize] <= 1 {
+                        t.ops.push(Op::new(dst, A_FE_SQUARE_N).off(srcs).len(rng.range(1, 6) as usize));
+                        depth[dst as usize] = 0;
+                    }
                 }
                 11 => {
-                    t.ops.push(Op::new(dst, A_FE_INVERT).off(srcs));
-                    depth[dst as usize] = 0;
+                    if depth[s1 as usize] <= 1 {
+                        t.ops.push(Op::new(dst, A_FE_INVERT).off(srcs));
+                        depth[dst as usize] = 0;
+                    }
                 }
                 12 => {
-                    t.ops.push(Op::new(dst, A_FE_POW25523).off(srcs));
-                    depth[dst as usize] = 0;
+                    if depth[s1 as usize] <= 1 {
+                        t.ops.push(Op::new(dst, A_FE_POW25523).off(srcs));
+                        depth[dst as usize] = 0;
+                    }
                 }
                 13 | 14 => t.ops.push(Op::new(s1, A_FE_OBSERVE)),
                 15 => {
@@ -422,8 +461,10 @@ impl Scenario for ArithProg {
                     if rng.chance(1, 2) {
                         t.ops.push(Op::new(0, A_GE_DECODE).arg(rng.below(24)).seed(rng.data_seed()));
                     } else {
-                        t.ops.push(Op::new(dst, A_FE_SQUARE_DOUBLE).off(srcs));
-                        depth[dst as usize] = 0;
+                        if depth[s1 as usize] <= 1 {
+                            t.ops.push(Op::new(dst, A_FE_SQUARE_DOUBLE).off(srcs));
+                            depth[dst as usize] = 0;
+                        }
                     }
                 }
             }
@@ -572,26 +613,34 @@ impl Scenario for ArithProg {
                     })
                 }
                 A_FE_ADD | A_FE_SUB => {
-                    if depth[s1] != 0 || depth[s2] != 0 {
+                    let d = depth[s1] + depth[s2] + 1;
+                    if d > MAX_CHAIN {
                         continue;
+                    }
+                    if d > 2 {
+                        obs.hit("probe.addition_chain_of_three_or_more_terms");
                     }
                     let (x, y) = (regs[s1].clone(), regs[s2].clone());
                     guarded(|| if op.k == A_FE_ADD { &x + &y } else { &x - &y }).map(|f| {
                         regs[dst] = f;
-                        depth[dst] = 1;
+                        depth[dst] = d;
                     })
                 }
                 A_FE_NEG => {
-                    if depth[s1] != 0 {
+                    if depth[s1] + 1 > MAX_CHAIN {
                         continue;
                     }
                     let x = regs[s1].clone();
+                    let d = depth[s1] + 1;
                     guarded(|| -&x).map(|f| {
                         regs[dst] = f;
-                        depth[dst] = 1;
+                        depth[dst] = d;
                     })
                 }
                 A_FE_MUL => {
+                    if depth[s1] > 1 || depth[s2] > 1 {
+                        continue;
+                    }
                     let (x, y) = (regs[s1].clone(), regs[s2].clone());
                     guarded(|| &x * &y).map(|f| {
                         regs[dst] = f;
@@ -599,6 +648,9 @@ impl Scenario for ArithProg {
                     })
                 }
                 A_FE_SQUARE | A_FE_SQUARE_N | A_FE_INVERT | A_FE_POW25523 | A_FE_SQUARE_DOUBLE => {
+                    if depth[s1] > 1 {
+                        continue;
+                    }
                     let x = regs[s1].clone();
                     let n = (op.len as usize).clamp(1, 8);
                     guarded(|| match op.k {
